@@ -18,9 +18,10 @@ import (
 // E-state: explicit-state breadth-first search over the real package-option machine.
 
 type c18Case struct {
-	History []string `json:"history"` // transition names, applied after restoring defaults
-	Family  string   `json:"family,omitempty"`
-	Cold    bool     `json:"cold_start,omitempty"` // the history is the first thing a fresh process does (no call of any kind before it)
+	History     []string `json:"history"` // transition names, applied after restoring defaults
+	Family      string   `json:"family,omitempty"`
+	Interleaved bool     `json:"every_family_used_after_every_setter,omitempty"`
+	Cold        bool     `json:"cold_start,omitempty"` // the history is the first thing a fresh process does (no call of any kind before it)
 	// documented behavioural effect of the empty-element syntax switch (a value and an encoder)
 	Value   json.RawMessage `json:"value,omitempty"`
 	Encoder string          `json:"encoder,omitempty"`
@@ -545,6 +546,12 @@ func (e *c18Engine) checkState(history []int, m optModel) {
 			return
 		}
 	}
+	// (d') the same with use interleaved
+	if len(history) >= 2 {
+		if !e.interleaved(history, m) {
+			return
+		}
+	}
 	// (c) restore: back to defaults => fresh-process state vector and fresh-process behaviour
 	e.goTo(history)
 	resetOptions()
@@ -561,6 +568,74 @@ func (e *c18Engine) checkState(history []int, m optModel) {
 			return
 		}
 	}
+}
+
+// canonFor: the family's behaviour in the canonical state that agrees with m on the family's documented
+// dependencies and is default everywhere else (computed once per projection).
+func (e *c18Engine) canonFor(f c18Family, m optModel) string {
+	var proj []string
+	for _, d := range f.deps {
+		proj = append(proj, d+"="+m[d])
+	}
+	pk := f.name + "|" + strings.Join(proj, ";")
+	want, ok := e.canon[pk]
+	if !ok {
+		resetOptions()
+		// decoder-side escaping first: the encoder-side switch is ignored while it is on
+		order := append([]string{}, f.deps...)
+		sort.SliceStable(order, func(i, j int) bool { return order[i] == "xmlEscapeCharsDecoder" && order[j] != "xmlEscapeCharsDecoder" })
+		for _, d := range order {
+			if m[d] != e.base[d] {
+				c18SetVar(d, m[d])
+			}
+		}
+		want = f.run()
+		e.canon[pk] = want
+		e.c.S.Transitions++
+	}
+	return want
+}
+
+// interleaved: every family is used after every setter of the history, not only at its end - whatever an
+// implementation remembers from a decode, encode or query made under an earlier option setting must not show
+// once the options have moved on. m is the model state the history leads to.
+func (e *c18Engine) interleaved(history []int, m optModel) bool {
+	c := e.c
+	wants := make([]string, len(e.fams))
+	for i, f := range e.fams {
+		wants[i] = e.canonFor(f, m)
+	}
+	resetOptions()
+	for i, t := range history {
+		e.trans[t].real()
+		if i < len(history)-1 {
+			for _, f := range e.fams {
+				f.run()
+				c.S.Transitions++
+			}
+		}
+	}
+	for i, f := range e.fams {
+		got := f.run()
+		c.S.Transitions++
+		c.S.Validated++
+		if got != wants[i] {
+			c.Violate(f.name, "non-interference-interleaved-use", "family="+f.name, c18Case{History: e.names(history), Family: f.name, Interleaved: true}, nil,
+				fmt.Sprintf("history=%v with every API family used after every setter\n family %s depends on %v only, yet at the end it behaves differently from the canonical state that agrees on those (something remembered from a call made under an earlier setting)\n here     : %s\n canonical: %s", e.names(history), f.name, f.deps, short(got, 600), short(wants[i], 600)))
+			return false
+		}
+	}
+	resetOptions()
+	for _, f := range e.fams {
+		got := f.run()
+		c.S.Transitions++
+		if got != e.baseBat[f.name] {
+			c.Violate("restore-defaults", "behaviour-restored-interleaved-use", "restore", c18Case{History: e.names(history), Family: f.name, Interleaved: true}, nil,
+				fmt.Sprintf("history=%v with every API family used after every setter, then defaults restored: family %s behaves differently from a fresh process\n now  : %s\n fresh: %s", e.names(history), f.name, short(got, 600), short(e.baseBat[f.name], 600)))
+			return false
+		}
+	}
+	return true
 }
 
 // step applies transition t in the state reached by history and checks (a) and (b).
@@ -628,7 +703,7 @@ func c18Run(c *Ctx) {
 			return
 		}
 	}
-	c.S.Rule = "explicit-state breadth-first search over the real package-option machine: state = dump (generated at build time) of the 38 package-level variables of mxj that are option state - what the setters write; other package-level variables a tree may have (tables, caches, pools, counters, lazily set flags) are not compared, their effect is judged by behaviour; transitions = every option setter in every argument form (explicit true/false, argument-less, attribute prefixes {-,\"\",@,_}, PrependAttrWithHyphen, key prefixes {#,_,$}, field separators, array sizes, skip function nil/f, empty-element syntax, JsonUseNumber) - 63 transitions; all histories of length <= D from the initial state with state de-duplication (two histories are merged only if they agree on the option vector AND on every other non-container package-level variable the tree under test has - a flag or remembered value a setter keeps beside its option gives the state a different future, so such states are kept apart, up to 40000 of them). On every transition: the reference option machine predicts the whole next state vector (documented semantics incl. toggles, 'disable' for white space, 'reset' for the field separator, the coupling of the two escaping switches), explicit forms are idempotent (the setter's global writes are logged against its documented write set, informational). On every state: 11 API families behave exactly as in the canonical state that agrees on the family's documented dependency set (non-interference), and after restoring defaults the state vector and the behaviour battery equal the fresh-process baseline. Documented behavioural effect of XmlGoEmptyElemSyntax ('<tag ...></tag> rather than <tag .../>'): for every value template with <= 4/5 nodes over {a,-x,#text} with empty containers, empty strings and nulls and 6 encoders, the output under the switch has the same token stream as the default output and contains no '/>'. Documented behavioural effect of the attribute prefix and the global key prefix (they only name keys inside the Map): for every document with <= 2 elements and <= 2 decorations (attributes whose own names begin with prefix characters: _id, __v, _; text, comment, PI), decode + encode under prefixes {@, _, __, attr_, -_, the two-byte character U+00A7, @ followed by U+00B5} / key prefixes {_, $, %} gives the same XML as under the defaults. Cold starts: every history of length 1 (thorough: <= 2) is also run as the first thing a fresh process does (a child process of the worker): it applies the history, uses all 11 families, restores the defaults and uses them again - behaviour after the restore must equal the fresh baseline and behaviour in the state must equal what the long-lived worker shows in that state (whatever is initialised lazily must not freeze the options in force at first use). non-trivial = distinct states."
+	c.S.Rule = "explicit-state breadth-first search over the real package-option machine: state = dump (generated at build time) of the 38 package-level variables of mxj that are option state - what the setters write; other package-level variables a tree may have (tables, caches, pools, counters, lazily set flags) are not compared, their effect is judged by behaviour; transitions = every option setter in every argument form (explicit true/false, argument-less, attribute prefixes {-,\"\",@,_}, PrependAttrWithHyphen, key prefixes {#,_,$}, field separators, array sizes, skip function nil/f, empty-element syntax, JsonUseNumber) - 63 transitions; all histories of length <= D from the initial state with state de-duplication (two histories are merged only if they agree on the option vector AND on every other non-container package-level variable the tree under test has - a flag or remembered value a setter keeps beside its option gives the state a different future, so such states are kept apart, up to 40000 of them). On every transition: the reference option machine predicts the whole next state vector (documented semantics incl. toggles, 'disable' for white space, 'reset' for the field separator, the coupling of the two escaping switches), explicit forms are idempotent (the setter's global writes are logged against its documented write set, informational). On every state: 11 API families behave exactly as in the canonical state that agrees on the family's documented dependency set (non-interference), and after restoring defaults the state vector and the behaviour battery equal the fresh-process baseline; both again with use interleaved (all 11 families are used after every setter, not only at the end: what a decode, encode or query made under an earlier setting leaves behind must not show later) - for the representative history of every state and for EVERY history of 2 (thorough: 3) setters, merged or not. Documented behavioural effect of XmlGoEmptyElemSyntax ('<tag ...></tag> rather than <tag .../>'): for every value template with <= 4/5 nodes over {a,-x,#text} with empty containers, empty strings and nulls and 6 encoders, the output under the switch has the same token stream as the default output and contains no '/>'. Documented behavioural effect of the attribute prefix and the global key prefix (they only name keys inside the Map): for every document with <= 2 elements and <= 2 decorations (attributes whose own names begin with prefix characters: _id, __v, _; text, comment, PI), decode + encode under prefixes {@, _, __, attr_, -_, the two-byte character U+00A7, @ followed by U+00B5} / key prefixes {_, $, %} gives the same XML as under the defaults. Cold starts: every history of length 1 (thorough: <= 2) is also run as the first thing a fresh process does (a child process of the worker): it applies the history, uses all 11 families, restores the defaults and uses them again - behaviour after the restore must equal the fresh baseline and behaviour in the state must equal what the long-lived worker shows in that state (whatever is initialised lazily must not freeze the options in force at first use). non-trivial = distinct states."
 	c.S.Assumptions = []string{"key prefixes are single punctuation characters (as the property states)", "the fresh-process baseline is recorded in the worker before any setter is called"}
 	depth := 4
 	if c.Thorough {
@@ -695,6 +770,39 @@ func c18Run(c *Ctx) {
 		}
 		frontier = next
 		c.S.BoundCompleted = d + 1
+	}
+	// interleaved use on EVERY history of 2 (thorough: 3) setters, whether or not the search merged the state it
+	// leads to into one reached earlier: a state equal to an earlier one in every variable can still differ in
+	// what the calls made on the way have left in a cache
+	{
+		ii := 0
+		n := len(e.trans)
+		for t1 := 0; t1 < n; t1++ {
+			m1 := e.base.clone()
+			e.trans[t1].model(m1)
+			for t2 := 0; t2 < n; t2++ {
+				m2 := m1.clone()
+				e.trans[t2].model(m2)
+				if own(ii) && !c.Capped() {
+					c.S.Schedules++
+					c.Count("interleaved_use_histories", 1)
+					e.interleaved([]int{t1, t2}, m2)
+				}
+				ii++
+				if c.Thorough {
+					for t3 := 0; t3 < n; t3++ {
+						if own(ii) && !c.Capped() {
+							m3 := m2.clone()
+							e.trans[t3].model(m3)
+							c.S.Schedules++
+							c.Count("interleaved_use_histories", 1)
+							e.interleaved([]int{t1, t2, t3}, m3)
+						}
+						ii++
+					}
+				}
+			}
+		}
 	}
 	// documented behavioural effect of the empty-element syntax switch, on every small value
 	resetOptions()
